@@ -12,7 +12,7 @@ props = [json.loads(l)['id'] for l in open('/verif/properties.jsonl')]
 baseline = json.load(open('/root/.vp/BASELINE.json'))['cmd'] if os.path.exists('/root/.vp/BASELINE.json') else ''
 checks, na = [], []
 for p in props:
-    if p in engine.REGISTRY and p in claims.CLAIMS:
+    if p in engine.REGISTRY and p in claims.CLAIMS and p not in getattr(claims, 'PENDING', ()):
         c = claims.CLAIMS[p]
         rules = ', '.join(s.id for s in engine.REGISTRY[p])
         checks.append(dict(
